@@ -89,6 +89,9 @@ func (e *retryEngine) Gen(rng *rand.Rand, tier string, n int, emit func(string))
 	// a broker that grants less than requested: the client keeps asking for what the application asked for
 	emit("t0a0c0g1 P - start dial+:10 ack+:0 sub:61.2 sub:62.2,632f23.1 close dial+:20 ack+:0 close dial+:30 ack+:0 unsub:62 close dial+:40 ack+:0")
 	emit("t0a1c0g1 P ok,la start dial+:10 ack+:0 sub:61.2 sub:62.2 close dial+:20 ack+:1 close dial+:30 ack+:1")
+	// no OnError callback: timeouts and cuts must still be handled (request kept, connection closed, redial)
+	emit("t1a0c1e0 P si,ok start dial+:10 ack+:0 pub:1:1 pub:2:2" + tail)
+	emit("t0a0c1e0 P la,wf,lr start dial+:10 ack+:0 sub:61.1 pub:1:2 unsub:61" + tail)
 	// a long outage: 70 consecutive failed dials (the back-off must stay clamped, never wrap)
 	emit("t0a0c0 P - pub:1:1 start" + strings.Repeat(" dial-", 70) + " dial+:10 ack+:0")
 	// bursts: several requests submitted while one is in flight (its acknowledgement is slow / lost with the connection)
@@ -346,6 +349,9 @@ func genRetryScript(rng *rand.Rand) string {
 	}
 	if rng.Intn(4) == 0 {
 		cfg += "g1" // the broker grants at most QoS 1
+	}
+	if rng.Intn(5) == 0 {
+		cfg += "e0" // no OnError callback installed
 	}
 	if strings.Contains(script, "cancel") && rng.Intn(2) == 0 {
 		cfg += "d1" // the dialer ignores its context
